@@ -177,6 +177,9 @@ def check_interp_curve(case, ctx):
         ctx.check(False, "malformed-control-points",
                   "the fitted curve has control points of %r coordinates for %d-dimensional data" % (sorted(set(len(q_) for q_ in P)), len(Q[0])))
         return
+    if n % 2:
+        crv.evaluate(start=0.25, stop=0.75)          # only a part of the fitted curve was sampled before
+        ctx.label("part-sampled-before-querying")
     for k, (u, q) in enumerate(zip(uk, Q)):
         got = crv.evaluate_single(u)
         ctx.check(all(abs(a - b) <= 1e-7 * big for a, b in zip(got, q)), "interpolation",
